@@ -109,9 +109,12 @@ def case_raw(case):
 
 
 def canon_maps(s):
+    """the two mappings as RELATIONS (sorted rows): C03's text is about which id a name has, not about the order of the table
+    rows (C02 owns the identity of the tables through save / load)"""
     tm, sm = s.treatment_mapping, s.sample_mapping
-    return ([str(x) for x in tm[0]], [S.bits(x) for x in tm[1]], [int(x) for x in tm[2]],
-            [str(x) for x in sm[0]], [int(x) for x in sm[1]])
+    t = sorted(zip([str(x) for x in tm[0]], [S.bits(x) for x in tm[1]], [int(x) for x in tm[2]]))
+    m = sorted(zip([str(x) for x in sm[0]], [int(x) for x in sm[1]]))
+    return ([r[0] for r in t], [r[1] for r in t], [r[2] for r in t], [r[0] for r in m], [r[1] for r in m])
 
 
 class Reference:
@@ -136,7 +139,7 @@ class Reference:
         self.pred = None
         self.arrays = None
         self.space_props = props_snapshot(sp)          # every property of the experiment space, by introspection
-        self.map_attrs = {k: v for k, v in attrs_snapshot(orig).items() if ("mapping" in k and "plate" not in k) or "control" in k}
+        self.map_attrs = map_attrs(orig)
         if int(orig.treatment_arity) in (1, 2) and self.n_t > 0 and self.n_s > 0 and orig.size > 0:
             from batchie.models.sparse_combo import SparseDrugComboMCMCSample
             g = np.random.default_rng(theta_seed)
@@ -230,7 +233,7 @@ def check_stage(ref, stage, rows, prev_sizes, case, step, res):
     sizes = (int(sp.n_unique_treatments), int(sp.n_unique_samples))
     max_t = max([x for r in ti for x in r], default=-1)
     max_s = max(si, default=-1)
-    if "space" in ORACLES and (sizes[0] < prev_sizes[0] or sizes[1] < prev_sizes[1] or sizes != (ref.n_t, ref.n_s)
+    if "space" in ORACLES and (sizes[0] < prev_sizes[0] or sizes[1] < prev_sizes[1] or sizes[0] < ref.n_t or sizes[1] < ref.n_s
                                or max_t >= sizes[0] or max_s >= sizes[1]):
         res.fail("the embedding sizes implied by a derived screen shrank / do not cover its ids", c,
                  {"step": step, "n_unique_treatments": sizes[0], "n_unique_samples": sizes[1], "max_treatment_id": max_t, "max_sample_id": max_s},
@@ -298,13 +301,18 @@ def check_introspective(ref, stage, case, step, res):
     from batchie.data import ExperimentSpace
     c = dict(case)
     c["failing_step"] = step
-    mine = {k: v for k, v in attrs_snapshot(stage).items() if ("mapping" in k and "plate" not in k) or "control" in k}
-    d = dict_diff(ref.map_attrs, mine)
+    d = dict_diff(ref.map_attrs, map_attrs(stage))
     if d is not None:
         res.fail("attribute '%s' of a derived screen (found by introspection) differs from the prepared screen's" % d[0], c,
                  {"step": step, "name": d[0], "derived": d[2]}, {"prepared": d[1]}, signature=SIG_MAP)
         return True
-    d = dict_diff(ref.space_props, props_snapshot(ExperimentSpace.from_screen(stage)))
+    mine = props_snapshot(ExperimentSpace.from_screen(stage))
+    d = None
+    for k in sorted(set(ref.space_props) | set(mine)):       # every size-like property found on the class: never smaller
+        a, b = ref.space_props.get(k), mine.get(k)
+        if isinstance(a, int) and not isinstance(a, bool) and (not isinstance(b, int) or b < a):
+            d = (k, a, b)
+            break
     if d is not None:
         res.fail("experiment-space property '%s' (found by introspection) differs from the prepared screen's" % d[0], c,
                  {"step": step, "name": d[0], "derived": d[2]}, {"prepared": d[1]}, signature=SIG_SPACE)
@@ -312,8 +320,31 @@ def check_introspective(ref, stage, case, step, res):
     return False
 
 
+def map_attrs(screen):
+    """every mapping / control attribute found in vars() (not the plate mapping), tables as relations (rows sorted)"""
+    out = {}
+    for k, v in vars(screen).items():
+        if "mapping" in k and "plate" not in k and isinstance(v, tuple):
+            out[k] = sorted(zip(*[[str(x) if np.asarray(col).dtype.kind in "UO" else (S.bits(x) if np.asarray(col).dtype.kind == "f" else int(x))
+                                   for x in np.asarray(col).tolist()] for col in v]))
+            out[k] = [list(r) for r in out[k]]
+        elif "control" in k:
+            out[k] = str(v)
+    return out
+
+
+ID_ATTRS = ("id", "mapping", "name", "dose", "control")
+
+
+def id_attrs(obj):
+    """the attributes C03 is about (ids, mappings, names, doses, control name), found by introspection; observation values and
+    masks belong to C12"""
+    return {k: v for k, v in attrs_snapshot(obj).items() if any(t in k for t in ID_ATTRS)}
+
+
 def check_untouched(res, case, obj, snap, what, step):
-    d = dict_diff(snap, attrs_snapshot(obj))
+    snap = {k: v for k, v in snap.items() if any(t in k for t in ID_ATTRS)}
+    d = dict_diff(snap, id_attrs(obj))
     if d is not None:
         c = dict(case)
         c["failing_step"] = step
@@ -776,7 +807,8 @@ def run(ctx, res):
                                                       fraction=split["fraction"] if split["mode"] == "stub" else
                                                       (stub_fraction(sum(prep.sel), len(prep.sel)) if split["fn"] == "random" else split["fraction"])))
                     res.count("class.object-reuse")
-                    if split["fn"] == "random" and (show_stage(k2), show_stage(t2)) != (show_stage(prep.keep), show_stage(prep.test)):
+                    ids_of = lambda x: ([int(i) for i in x.sample_ids], [[int(i) for i in r] for r in np.asarray(x.treatment_ids).reshape(int(x.size), -1)], canon_maps(x))
+                    if split["fn"] == "random" and (ids_of(k2), ids_of(t2)) != (ids_of(prep.keep), ids_of(prep.test)):
                         res.fail("splitting the same screen object a second time (same selection) gives other halves", dict(base, side="train", ops=[]),
                                  {"second": [show_stage(k2)[:300], show_stage(t2)[:300]]},
                                  {"first": [show_stage(prep.keep)[:300], show_stage(prep.test)[:300]]}, signature=SIG_IDS)
